@@ -125,6 +125,7 @@ impl<'a> BundleFn for AppRegFn<'a> {
             Flavour::Ord => app.add_reactor(b, make_body_ord(inst, sh.clone())),
             Flavour::Excl => app.add_reactor(b, make_body_excl(inst, sh.clone())),
             Flavour::ExclErr => app.add_reactor(b, make_body_excl_err(inst, sh.clone())),
+            Flavour::Follow => app.add_reactor(b, make_body_follow(inst, sh.clone())),
             Flavour::DropErr => app.add_reactor(b, make_body_drop_err(inst, sh.clone())),
             Flavour::WarnErr => app.add_reactor(b, make_body_warn_err(inst, sh.clone())),
             Flavour::Zst => app.add_reactor(b, zst_body),
@@ -205,6 +206,51 @@ pub fn make_body_ord(
         drop(held);
         exec_acts(&sh, ctx.run, &ctx.acts, &mut c, &mut acc, Some(&mut wr));
         sh.push(Ev::BodyEnd { run: ctx.run, err: false });
+    }
+}
+
+/// Result type of the `Follow` flavour: handling it queues a marker command (attributed to the run that returned it).
+pub struct FollowUp {
+    sh: Arc<Shared>,
+    cmd: CmdId,
+}
+impl CobwebResult for FollowUp {
+    fn need_to_handle(&self) -> bool {
+        true
+    }
+    fn handle(self, world: &mut World) {
+        let (sh, cmd) = (self.sh, self.cmd);
+        let sh2 = sh.clone();
+        world.commands().queue(move |w: &mut World| {
+            let facts = sample_facts(w, &sh);
+            sh.push(Ev::Pre { cmd, facts });
+        });
+        world.commands().queue(move |w: &mut World| {
+            let facts = sample_facts(w, &sh2);
+            sh2.push(Ev::Post { cmd, facts });
+        });
+    }
+}
+
+pub fn make_body_follow(
+    inst: Inst,
+    sh: Arc<Shared>,
+) -> impl FnMut(Readers, Access, WrAccess, Commands, Local<u32>) -> FollowUp + Send + Sync + 'static {
+    let canary = Canary { inst, sh: sh.clone() };
+    let mut ordinal = 0u32;
+    move |mut r: Readers, mut acc: Access, mut wr: WrAccess, mut c: Commands, mut l: Local<u32>| {
+        let _ = &canary;
+        ordinal += 1;
+        *l += 1;
+        let (obs, held) = sample(&mut r);
+        let ctx = begin_run(&sh, inst, ordinal, *l, obs);
+        drop(held);
+        exec_acts(&sh, ctx.run, &ctx.acts, &mut c, &mut acc, Some(&mut wr));
+        // the follow-up command is issued by this run, after everything else it queued
+        let cmd = new_cmd(&sh);
+        issued(&sh, ctx.run, ctx.acts.len() as u32 + 100, cmd, RAct::Mark);
+        sh.push(Ev::BodyEnd { run: ctx.run, err: false });
+        FollowUp { sh: sh.clone(), cmd }
     }
 }
 
@@ -398,6 +444,7 @@ fn spawn_body(c: &mut Commands, inst: Inst, flavour: Flavour, sh: &Arc<Shared>) 
         Flavour::Ord => c.spawn_system_command(make_body_ord(inst, sh.clone())),
         Flavour::Excl => c.spawn_system_command(make_body_excl(inst, sh.clone())),
         Flavour::ExclErr => c.spawn_system_command(make_body_excl_err(inst, sh.clone())),
+        Flavour::Follow => c.spawn_system_command(make_body_follow(inst, sh.clone())),
         Flavour::DropErr => c.spawn_system_command(make_body_drop_err(inst, sh.clone())),
         Flavour::WarnErr => c.spawn_system_command(make_body_warn_err(inst, sh.clone())),
         Flavour::Zst => c.spawn_system_command(zst_body),
@@ -426,6 +473,7 @@ impl<'a, 'w, 's> BundleFn for RegFn<'a, 'w, 's> {
                 Flavour::Ord => c.react().once(b, make_body_ord(inst, sh.clone())),
                 Flavour::Excl => c.react().once(b, make_body_excl(inst, sh.clone())),
                 Flavour::ExclErr => c.react().once(b, make_body_excl_err(inst, sh.clone())),
+                Flavour::Follow => c.react().once(b, make_body_follow(inst, sh.clone())),
                 Flavour::DropErr => c.react().once(b, make_body_drop_err(inst, sh.clone())),
                 Flavour::WarnErr => c.react().once(b, make_body_warn_err(inst, sh.clone())),
                 Flavour::Zst => c.react().once(b, zst_body),
@@ -443,6 +491,7 @@ impl<'a, 'w, 's> BundleFn for RegFn<'a, 'w, 's> {
                     Flavour::Ord => c.react().on_persistent(b, make_body_ord(inst, sh.clone())),
                     Flavour::Excl => c.react().on_persistent(b, make_body_excl(inst, sh.clone())),
                     Flavour::ExclErr => c.react().on_persistent(b, make_body_excl_err(inst, sh.clone())),
+                    Flavour::Follow => c.react().on_persistent(b, make_body_follow(inst, sh.clone())),
                     Flavour::DropErr => c.react().on_persistent(b, make_body_drop_err(inst, sh.clone())),
                     Flavour::WarnErr => c.react().on_persistent(b, make_body_warn_err(inst, sh.clone())),
                     Flavour::Zst => c.react().on_persistent(b, zst_body),
@@ -454,6 +503,7 @@ impl<'a, 'w, 's> BundleFn for RegFn<'a, 'w, 's> {
                     Flavour::Ord => c.react().on_revokable(b, make_body_ord(inst, sh.clone())),
                     Flavour::Excl => c.react().on_revokable(b, make_body_excl(inst, sh.clone())),
                     Flavour::ExclErr => c.react().on_revokable(b, make_body_excl_err(inst, sh.clone())),
+                    Flavour::Follow => c.react().on_revokable(b, make_body_follow(inst, sh.clone())),
                     Flavour::DropErr => c.react().on_revokable(b, make_body_drop_err(inst, sh.clone())),
                     Flavour::WarnErr => c.react().on_revokable(b, make_body_warn_err(inst, sh.clone())),
                     Flavour::Zst => c.react().on_revokable(b, zst_body),
@@ -466,6 +516,7 @@ impl<'a, 'w, 's> BundleFn for RegFn<'a, 'w, 's> {
                     Flavour::Ord => c.react().on(b, make_body_ord(inst, sh.clone())),
                     Flavour::Excl => c.react().on(b, make_body_excl(inst, sh.clone())),
                     Flavour::ExclErr => c.react().on(b, make_body_excl_err(inst, sh.clone())),
+                    Flavour::Follow => c.react().on(b, make_body_follow(inst, sh.clone())),
                     Flavour::DropErr => c.react().on(b, make_body_drop_err(inst, sh.clone())),
                     Flavour::WarnErr => c.react().on(b, make_body_warn_err(inst, sh.clone())),
                     Flavour::Zst => c.react().on(b, zst_body),
